@@ -216,7 +216,8 @@ func inlineNewHelpers(prog *ssa.Program, main *ssa.Package, renamed map[*ssa.Fun
 		}
 	}
 	var done []string
-	for round := 0; round < 10; round++ {
+	skip := map[*ssa.Function]bool{}
+	for round := 0; round < 40; round++ {
 		srcFns := map[*ssa.Function]bool{}
 		for fn := range ssautil.AllFunctions(prog) {
 			if fn.Blocks == nil {
@@ -278,8 +279,18 @@ func inlineNewHelpers(prog *ssa.Program, main *ssa.Package, renamed map[*ssa.Fun
 				continue
 			}
 			name := f.RelString(main.Pkg)
-			if base[name] || len(u.calls) != 1 || u.other != 0 {
+			if base[name] || len(u.calls) < 1 || len(u.calls) > 4 || u.other != 0 {
 				continue
+			}
+			if len(u.calls) > 1 {
+				// several call sites: each gets a private copy, if the helper is small and simple enough
+				n := 0
+				for _, b := range f.Blocks {
+					n += len(b.Instrs)
+				}
+				if n > 120 || len(f.AnonFuncs) > 0 {
+					continue
+				}
 			}
 			if _, isRenamed := renamed[f]; isRenamed {
 				continue // a function of the pinned tree under a new name, not a new helper
@@ -295,12 +306,36 @@ func inlineNewHelpers(prog *ssa.Program, main *ssa.Package, renamed map[*ssa.Fun
 		sort.Slice(cands, func(i, j int) bool { return cands[i].RelString(main.Pkg) < cands[j].RelString(main.Pkg) })
 		progress := false
 		for _, f := range cands {
-			call := uses[f].calls[0]
+			if skip[f] {
+				continue
+			}
+			calls := uses[f].calls
+			if len(calls) > 1 {
+				// copy into the first site only in this round; the next rounds see one site less, the last one is moved
+				call := calls[0]
+				if call.Parent() == nil || call.Parent().Blocks == nil || call.Block() == nil || call.Parent() == f {
+					skip[f] = true
+					continue
+				}
+				caller := call.Parent()
+				if err := ssa.InlineStaticCallCopy(call); err != nil {
+					skip[f] = true
+					continue
+				}
+				if rep := ssa.SanityCheckFunction(caller); rep != "" {
+					return done, fmt.Errorf("inlining a copy of %s into %s left inconsistent SSA: %s", f.RelString(main.Pkg), caller.RelString(main.Pkg), firstLine(rep))
+				}
+				done = append(done, f.RelString(main.Pkg)+" (copy) -> "+caller.RelString(main.Pkg))
+				progress = true
+				break
+			}
+			call := calls[0]
 			if call.Parent() == nil || call.Parent().Blocks == nil || call.Block() == nil {
 				continue
 			}
 			caller := call.Parent()
 			if err := ssa.InlineStaticCall(call); err != nil {
+				skip[f] = true
 				continue
 			}
 			if rep := ssa.SanityCheckFunction(caller); rep != "" {
